@@ -357,6 +357,44 @@ func c16PathList(paths map[int]string) []string {
 	return out
 }
 
+// c16PlugPaths: nesting paths of a blank-separated plugin-language program that has no object literals: every "{" is
+// the body of the function whose header precedes it, or a block (plain, of if / else / while / UNLESS, of LOOP).
+// A token's path is the stack before the token; "{" pushes after itself, "}" pops before itself.
+func c16PlugPaths(src string) map[int]string {
+	paths := map[int]string{}
+	var stack []byte
+	pendingFn := false
+	i := 0
+	for i < len(src) {
+		if src[i] == ' ' || src[i] == '\n' {
+			i++
+			continue
+		}
+		j := i
+		for j < len(src) && src[j] != ' ' && src[j] != '\n' {
+			j++
+		}
+		tok := src[i:j]
+		if tok == "}" && len(stack) > 0 {
+			stack = stack[:len(stack)-1]
+		}
+		paths[i] = string(stack)
+		switch tok {
+		case "function":
+			pendingFn = true
+		case "{":
+			if pendingFn {
+				stack = append(stack, byte(gen.CtxFunc))
+				pendingFn = false
+			} else {
+				stack = append(stack, byte(gen.CtxBlock))
+			}
+		}
+		i = j
+	}
+	return paths
+}
+
 func c16Run(c *core.Ctx) {
 	processWarmup(c)
 	report := func(clause, k, d, src string, paths map[int]string, mi int, size int, class string) {
@@ -371,6 +409,33 @@ func c16Run(c *core.Ctx) {
 			v.Sig = k + "|" + class
 		}
 		c.Violate(v)
+	}
+	// the plugin language: the statements a plugin parses itself (LOOP block through ParseBlockStatement, UNLESS
+	// body through ParseStatement) nest like the built-in ones; all query variants of c16NestC apply
+	{
+		pbPlugLang = true
+		for i, src := range plugLangPrograms(c.Thorough()) {
+			if !c.Mine(int64(i)) || c.Tick() || strings.Contains(src, "//") {
+				continue
+			}
+			for _, text := range []string{src, strings.ReplaceAll(src, " ", "\n")} {
+				c.Cur(text)
+				paths := c16PlugPaths(text)
+				for mi, m := range Modes {
+					if mi > 0 && mi != 3 {
+						continue
+					}
+					kd, d, class, n, _ := c16NestC(text, paths, m)
+					c.Inc("programs_parsed")
+					c.Inc("plugin_language_programs")
+					c.Count("interceptor_invocations", int64(n))
+					if kd != "" {
+						report("nestP", "plugin-language-"+kd, d, text, paths, mi, 60, class+"|plugin-language")
+					}
+				}
+			}
+		}
+		pbPlugLang = false
 	}
 	// final-state violations are shrunk over the token list
 	reportFinal := func(k, d string, words []string, mi int) {
@@ -691,6 +756,11 @@ func c16Replay(pl json.RawMessage) (string, []core.Violation) {
 	json.Unmarshal(pl, &p)
 	out := fmt.Sprintf("clause %s mode %s source %q", p.Clause, Modes[p.Mode], p.Src)
 	var k, d string
+	if p.Clause == "nestP" {
+		pbPlugLang = true
+		defer func() { pbPlugLang = false }()
+		p.Clause = "nest"
+	}
 	if p.Clause == "nest" {
 		paths := map[int]string{}
 		for _, s := range p.Paths {
@@ -717,7 +787,7 @@ var _ = lexer.NewBuilder
 func init() {
 	core.Register(&core.PropSpec{
 		ID: "C16", Level: "model_checking",
-		Rule:     "context stack vs reference nesting model: every chain of <= d nesting constructors (d=3 quick; 4 full alphabet + 5 reduced alphabet thorough) over {block, if/else/while/for block, function declaration, function expression as call argument / array element / object value / let initialiser / return value / IIFE / inside if-, while- and for-headers / operand / index} around 3 leaf bodies, with a sibling statement before and after the nested construct at every level, plus the statement families (brace-less bodies); each parsed (space layout and LF-in-every-gap layout) with one statement and one expression interceptor that record IsInFunction(), CurrentContext() and the current token; oracle per invocation: the token's nesting path recorded by the harness unparser (function body braces = function body, not an extra block) gives IsInFunction <=> path contains a function and CurrentContext = innermost element. Final-state clause: ALL token sequences <= n (4 quick, 5 thorough) x modes, all byte strings <= 4, every truncation of every nested program at a token boundary and every single-token deletion: after ParseProgram CurrentContext()=global and IsInFunction()=false, with and without interceptors. states = distinct context stacks observed at an invocation; transitions = interceptor invocations checked Added: every ordered pair of nesting constructors x leaf bodies side by side (top level and inside a function); chains of one constructor (and alternating pairs) nested 5, 9, 17, 33, 65 (129, 257 thorough) deep; one constructor around (and innermost inside) 8, 16, 32, 64 (128, 256) levels of another constructor, for every ordered pair; sub-parse clause: every program again with a statement interceptor that parses a nested snippet with a SECOND parser of the same builder before answering. Installation sets (round 11): every program again on builders that carry only the expression interceptor, only the statement interceptor, and both between pass-through interceptors installed through Install. Plugin construct (round 12): every program again behind a plugin statement that reads a parameter list with the public ParseFunctionParameters and an expression body.",
+		Rule:     "context stack vs reference nesting model: every chain of <= d nesting constructors (d=3 quick; 4 full alphabet + 5 reduced alphabet thorough) over {block, if/else/while/for block, function declaration, function expression as call argument / array element / object value / let initialiser / return value / IIFE / inside if-, while- and for-headers / operand / index} around 3 leaf bodies, with a sibling statement before and after the nested construct at every level, plus the statement families (brace-less bodies); each parsed (space layout and LF-in-every-gap layout) with one statement and one expression interceptor that record IsInFunction(), CurrentContext() and the current token; oracle per invocation: the token's nesting path recorded by the harness unparser (function body braces = function body, not an extra block) gives IsInFunction <=> path contains a function and CurrentContext = innermost element. Final-state clause: ALL token sequences <= n (4 quick, 5 thorough) x modes, all byte strings <= 4, every truncation of every nested program at a token boundary and every single-token deletion: after ParseProgram CurrentContext()=global and IsInFunction()=false, with and without interceptors. states = distinct context stacks observed at an invocation; transitions = interceptor invocations checked Added: every ordered pair of nesting constructors x leaf bodies side by side (top level and inside a function); chains of one constructor (and alternating pairs) nested 5, 9, 17, 33, 65 (129, 257 thorough) deep; one constructor around (and innermost inside) 8, 16, 32, 64 (128, 256) levels of another constructor, for every ordered pair; sub-parse clause: every program again with a statement interceptor that parses a nested snippet with a SECOND parser of the same builder before answering. Installation sets (round 11): every program again on builders that carry only the expression interceptor, only the statement interceptor, and both between pass-through interceptors installed through Install. Plugin construct (round 12): every program again behind a plugin statement that reads a parameter list with the public ParseFunctionParameters and an expression body; the plugin language: 400 programs with LOOP blocks (ParseBlockStatement called by the plugin) and UNLESS bodies (ParseStatement), two layouts, all query variants.",
 		Assume:   []string{"nesting paths come from the harness unparser; its statement structure is cross-checked against goja by C02"},
 		QuickSec: 300, ThorSec: 3600, Run: c16Run, Replay: c16Replay,
 		Evals: "programs_parsed", Nontriv: "programs_with_invocations", States: "states", Trans: "interceptor_invocations",
